@@ -4,6 +4,7 @@ import (
 	"flag"
 	"fmt"
 	"os"
+	"path/filepath"
 	"strconv"
 )
 
@@ -44,6 +45,16 @@ func main() {
 	defer drv.Close()
 	r := &Runner{Prop: *prop, Seed: seed, Drv: drv, Ops: allOps, St: NewStats(*prop, seed), Known: LoadKnown(*known)}
 	r.Shard, r.NShard = *shard, *nshard
+	r.RepeatFactor = 1
+	if *tier == "thorough" {
+		r.RepeatFactor = 3
+	}
+	// stale replay files of this property/seed/shard from earlier runs would be misleading
+	if old, _ := filepath.Glob(filepath.Join(*replayDir, fmt.Sprintf("%s-%d-s%d-*.json", *prop, seed, *shard))); old != nil {
+		for _, f := range old {
+			os.Remove(f)
+		}
+	}
 	r.Probe()
 	r.RunCorpus("/verif/corpus/" + *prop)
 	run(r, *tier, NewRng(seed*0x9E3779B97F4A7C15+uint64(*shard)+1))
